@@ -1,8 +1,139 @@
 import Flatland.JsonUtil
+import Flatland.Path
+import Flatland.Spec.C14
 open Lean Flatland.J
 namespace Flatland.Run.C14
+open Flatland.Path Flatland.C14.Spec
 
-/-- JSON case in, JSON observation out (stub until the model of C14 is written). -/
-def run (_j : Json) : Except String Json := .error "model runner for C14 not implemented yet"
+/-- tree JSON: {"id": n, "k": "s|d|c|l|a|m|j", "name": str|null, "kids": [...]} -/
+partial def parseTree (j : Json) : Except String Node := do
+  let k ← sfld j "k"
+  let kind ← match k with
+    | "s" => pure Kind.scalar
+    | "d" => pure Kind.map | "c" => pure Kind.map
+    | "l" => pure Kind.list
+    | "a" => pure Kind.array | "m" => pure Kind.array | "j" => pure Kind.array
+    | _ => throw s!"bad kind {k}"
+  let nm := fldD j "name" Json.null
+  let name ← if isNull nm then pure [] else chars nm
+  let kids ← (← afld j "kids").mapM parseTree
+  return .mk kind name kids
+
+/-- (position, id) of every node, preorder -/
+partial def idTable (j : Json) (pos : Pos) : Except String (List (Pos × Nat)) := do
+  let id ← nfld j "id"
+  let kids ← afld j "kids"
+  let mut out := [(pos, id)]
+  let mut i := 0
+  for k in kids do
+    out := out ++ (← idTable k (pos ++ [i]))
+    i := i + 1
+  return out
+
+def posOf (tbl : List (Pos × Nat)) (id : Nat) : Except String Pos :=
+  match tbl.find? (·.2 == id) with
+  | some p => pure p.1
+  | none => throw s!"no node with id {id}"
+
+def idOf (tbl : List (Pos × Nat)) (p : Pos) : Json :=
+  match tbl.find? (·.1 == p) with
+  | some q => ofNat q.2
+  | none => Json.str "not-an-element"
+
+/-- ASCII-safe rendering of a string for the line protocol (core splits the driver output with
+    `str.splitlines`, which also breaks at U+0085, U+2028, ...): printable ASCII except `%` as
+    is, everything else as `%<hex code point>;` -/
+def encStr (s : Path.Str) : Json :=
+  let hex (n : Nat) : String := String.ofList (Nat.toDigits 16 n)
+  Json.str (String.join (s.map (fun c =>
+    if 32 ≤ c.toNat && c.toNat < 127 && c != '%' then String.singleton c else "%" ++ hex c.toNat ++ ";")))
+
+def errStr : Err → String
+  | .lookup => "LookupError" | .value => "ValueError" | .type => "TypeError"
+
+def opJson : Op → Json
+  | .top => Json.arr #["TOP"]
+  | .up => Json.arr #["UP"]
+  | .here => Json.arr #["HERE"]
+  | .name s => Json.arr #["NAME", ofOpt encStr s]
+  | .slice a b c => Json.arr #["SLICE", ofOpt ofInt a, ofOpt ofInt b, ofOpt ofInt c]
+
+def resJson (tbl : List (Pos × Nat)) : FindRes → Json
+  | .many l => obj [("list", ofList (idOf tbl) l)]
+  | .one none => obj [("one", Json.null)]
+  | .one (some p) => obj [("one", idOf tbl p)]
+  | .err e => obj [("error", Json.str (errStr e))]
+
+def parseStep (j : Json) : Except String CStep := do
+  let t ← sfld j "t"
+  let sp : Spelling := {
+    bracket := (bool (fldD j "br" (Json.bool false))).toOption.getD false,
+    sep := (bool (fldD j "sep" (Json.bool false))).toOption.getD false,
+    escAll := (bool (fldD j "escall" (Json.bool false))).toOption.getD false }
+  let step ← match t with
+    | "up" => pure Step.up
+    | "here" => pure Step.here
+    | "name" => do pure (Step.name (← cfld j "s"))
+    | "neg" => do pure (Step.negidx (← nfld j "n"))
+    | "slice" => do
+      let a ← optOf int (fldD j "a" Json.null)
+      let b ← optOf int (fldD j "b" Json.null)
+      let c ← match j.getObjVal? "c" with
+        | .error _ => pure none
+        | .ok cj => do pure (some (← optOf int (fldD cj "v" Json.null)))
+      pure (Step.slice a b c)
+    | _ => throw s!"bad step {t}"
+  return { step, sp }
+
+def parseCPath (j : Json) : Except String CPath := do
+  return { top := ← bfld j "top", trail := ← bfld j "trail",
+           steps := ← (← afld j "steps").mapM parseStep }
+
+def findResEq : FindRes → FindRes → Bool
+  | .many a, .many b => a == b
+  | .one a, .one b => a == b
+  | .err a, .err b => a == b
+  | _, _ => false
+
+def run (j : Json) : Except String Json := do
+  let tj ← fld j "tree"
+  let root ← parseTree tj
+  let tbl ← idTable tj []
+  let start ← posOf tbl (← nfld j "start")
+  let path ← cfld j "path"
+  let strict ← bfld j "strict"
+  let single ← bfld j "single"
+  let ops := match tokenize path with
+    | .ok ops => ofList opJson ops
+    | .error e => obj [("error", Json.str (errStr e))]
+  -- "as_segments": "tuple" | "list" — the path was handed to find() as that kind of iterable
+  let segKind := (str (fldD j "as_segments" (Json.str ""))).toOption.getD ""
+  let nseg := (path.splitOn '/').length
+  let fmtOK := !(segKind == "tuple" && nseg != 1)
+  let res := findWith fmtOK root start path single strict
+  let mut out := [("ops", ops), ("result", resJson tbl res)]
+  -- spec B on the AST the path was printed from (when the case carries one)
+  match j.getObjVal? "ast" with
+  | .error _ => pure ()
+  | .ok aj =>
+    if !isNull aj then
+      let cp ← parseCPath aj
+      let printed := print cp
+      out := out ++ [("printed", encStr printed)]
+      let p := cp.abstract
+      let spec := findSpec p root start single strict
+      let specC := findSpec (cancel p) root start single strict
+      out := out ++ [("denoted", resJson tbl spec), ("canon", Json.bool (Canon p)),
+        ("cancelled", resJson tbl specC)]
+      if cp.wf then
+        -- theorems find_print_cancel / find_print_denotes / tokenize_print, re-checked on the case
+        let hasDots := p.steps.any (fun s => s.isUp || s.isHere)
+        let agrees := printed == path && findResEq specC (find root start path single strict) &&
+          (!(Canon p) || findResEq spec (find root start path single strict)) &&
+          (match tokenize path with
+           | .ok ops => ops == (if hasDots then canonicalize (compile p) else compile p)
+           | .error _ => false)
+        out := out ++ [("spec_agrees", Json.bool agrees)]
+  return obj out
 
 end Flatland.Run.C14
